@@ -42,7 +42,7 @@ func c07Run(rc *sim.RunCtx) {
 	allFaults := []sim.FaultKind{sim.FGoErr, sim.FUgoErr, sim.FPanicStr, sim.FPanicErr, sim.FPanicRT, sim.FPanicObj}
 
 	// observation script
-	og := newGen(t, genConfig{Modules: true, Hosts: true, Consts: t.Bool(1, 2), Params: true, MaxStmts: 10})
+	og := newGen(t, genConfig{Modules: true, Hosts: true, Consts: t.Bool(1, 2), Params: true, Share: true, MaxStmts: 10})
 	obsSrc, obsMods := og.program()
 	if t.Bool(1, 2) {
 		// end the observation with an error thrown at a drawn call depth and never caught: a handler or frame left
@@ -72,7 +72,7 @@ func c07Run(rc *sim.RunCtx) {
 			}
 		default:
 			// a generated script, possibly with host faults, possibly aborted at instruction k
-			pg := newGen(t, genConfig{Modules: true, Hosts: true, Consts: false, MaxStmts: 8})
+			pg := newGen(t, genConfig{Modules: true, Hosts: true, Consts: false, Share: true, MaxStmts: 8})
 			pg.nvar = 5000 * (i + 1)
 			p.src, p.mods = pg.program()
 			// module names must be unique across programs of one module map
@@ -115,6 +115,8 @@ func c07Run(rc *sim.RunCtx) {
 	}
 	obsSpec := sim.DrawWorldSpec(t, "obs", 4, 3, 2, obsFaults, 3, 16)
 
+	// the observation declares `param (PA, PB)`: run it with 0–3 arguments
+	obsArgs := []ugo.Object{ugo.Int(3), ugo.String("arg"), ugo.Int(9)}[:t.Pick(1, 1, 4, 1)]
 	type compiled struct {
 		bc *ugo.Bytecode
 		fp string
@@ -146,7 +148,7 @@ func c07Run(rc *sim.RunCtx) {
 					err = fmt.Errorf("Go panic escaped from VM.Run (recovery %v): %s at %s", recoverOn, msgClass(r), panicSite("github.com/ozanh/ugo"))
 				}
 			}()
-			ret, err = vm.Run(w.Globals, ugo.Int(3), ugo.String("arg"))
+			ret, err = vm.Run(w.Globals, obsArgs...)
 		}()
 		res := c08Result{out: sim.MakeOutcome(ret, err, w.Hist)}
 		if sc.Capped {
